@@ -123,9 +123,11 @@ def run(ctx, spec, out):
             if kind == "rejecting":
                 h.both({"op": "mode", "backend": pid, "cmd_reply": rng.choice(REPLIES)})
             elif kind == "closeearly":
-                h.both({"op": "mode", "backend": pid, "mode": "closeearly"})
+                # half of the closing backends drop the connection with the rest of the request unread: the sender then reads
+                # "connection reset by peer" instead of the end of the stream (the model knows no difference: the command was sent)
+                h.both({"op": "mode", "backend": pid, "mode": "closeearly", "reset": rng.random() < 0.5})
             elif kind == "failafter":
-                h.both({"op": "mode", "backend": pid, "fail_after": rng.choice([0, 1, 2, 3]), "fail_mode": "closeearly"})
+                h.both({"op": "mode", "backend": pid, "fail_after": rng.choice([0, 1, 2, 3]), "fail_mode": "closeearly", "reset": rng.random() < 0.5})
             elif kind == "broken":
                 # the backend lists one host more than lmd stored (no restart): the next full scan flags it broken
                 row = json.loads(json.dumps(wbp["tables"]["hosts"]["rows"][-1]))
